@@ -1,4 +1,5 @@
 import Unimock.Model.Render
+import Unimock.Generated.Counter
 import Unimock.Model.Codegen.Matching
 import Unimock.Model.Codegen.Method
 /-!
@@ -77,6 +78,12 @@ theorem C19_pattern_rendering (p : Path) (src file : String) (line i : Nat) :
     renderPattern p (.debug src file line) = p.trait ++ "::" ++ p.method ++ src ++ " at " ++ file ++ ":" ++ toString line ∧
     renderPattern p (.index i) = "call pattern " ++ p.trait ++ "::" ++ p.method ++ "[#" ++ toString i ++ "]" := by
   simp [renderPattern, Path.render, String.append_assoc]
+
+/-- `impl Display for NCalls` as written in src/counter.rs (regenerated on every run) is the model's rendering of
+    call counts in verification messages -/
+theorem C19_source_ncalls (n : Nat) : Generated.nCallsSrc n = renderNCalls n := by
+  unfold Generated.nCallsSrc renderNCalls
+  split <;> simp
 
 end Unimock.Render
 
